@@ -14,7 +14,8 @@ C3       == <<0, 1, 3>>
 \* string classes: prefix = each name extends the previous one; rprefix = each LATER name is a proper prefix of an
 \* earlier one; substr = later names are inner substrings / suffixes of earlier ones (down to one character);
 \* dup = exact duplicates
-NameCls  == <<"plain", "prefix", "rprefix", "substr", "dup", "long", "nonascii">>
+\* empty_first / empty_mid / empty_last = plain names with an EMPTY string at that position of the table
+NameCls  == <<"plain", "prefix", "rprefix", "substr", "dup", "long", "nonascii", "empty_first", "empty_mid", "empty_last">>
 NNameCls == Len(NameCls)
 RootDims == <<"ntex", "nmat", "ngrp", "nport", "npref", "nvbl", "nlight", "ndd", "nds">>
 
@@ -100,8 +101,8 @@ GroupSlices ==
   \cup {Group("group", v, 0, 0, 0, 0, 0, -1, 0, g, 0, -1, 0) : v \in {VClassic, VMop}, g \in {0, 1, 4}}
   \cup {Group("group", v, 0, 0, 0, 0, 0, -1, 0, -1, h, -1, 0) : v \in {VClassic, VMop}, h \in {1, 2}}
   \* every catalogued BSP tree, alone and inside a fully populated group
-  \cup {GroupB("group", v, 0, 0, 0, 0, 0, -1, 0, 0, 0, -1, 0, BspRows(t)) : v \in {VClassic, VMop}, t \in 1..Len(BspCatalog)}
-  \cup {GroupB("group", v, 0, 3, 9, 3, 3, 3, 3, 0, 2, 3, 0, BspRows(t)) : v \in Versions, t \in 1..Len(BspCatalog)}
+  \cup {GroupB("group", v, 0, 0, 0, 0, 0, -1, 0, 0, 0, -1, 0, BspRows(t)) : v \in {VClassic}, t \in 1..Len(BspCatalog)}
+  \cup {GroupB("group", v, 0, 3, 9, 3, 3, 3, 3, 0, 2, 3, 0, BspRows(t)) : v \in {VMop}, t \in 1..Len(BspCatalog)}
   \cup {Group("group", v, 0, 0, 0, 0, 0, -1, 0, -1, 0, i, 0) : v \in {VClassic, VMop}, i \in {0, 1, 3}}
 RandGroup(j) ==
     LET r == Stream(Start(2, j), 12) IN
